@@ -1,5 +1,5 @@
 """Property -> rules registry."""
-from .rules import kernel, incr, rot, sched
+from .rules import kernel, incr, rot, sched, meas
 
 PROPS = {
     'C01': dict(
@@ -67,6 +67,14 @@ PROPS = {
                  'no epoch overtaken => every epoch in [start, end) used exactly once in order'],
         undecided=['finiteness of the numerical tables'],
         assumptions=['trajectory time index strictly increasing (input precondition)']),
+    'C06': dict(
+        rules=[meas.meas_guard, meas.meas_dep, meas.meas_shape, meas.meas_cols],
+        decided=['absent time returns None before any data access',
+                 'every attribute the residual depends on reaches H (lever arm), under the same '
+                 'condition', 'matching dimensions of z, H, R in both altitude modes',
+                 'residual is predicted minus measured', 'simulator/constructor column agreement'],
+        undecided=['numerical zero residual at the true state',
+                   'H entry-wise equal to the derivative (see H-JACOBIAN when built)']),
 }
 
 
